@@ -12,6 +12,10 @@ pub struct Outcome {
     pub final_len: usize,
 }
 
+pub fn debug_on() -> bool {
+    std::env::var("VERIF_DEBUG").is_ok()
+}
+
 pub type Hook<'a> = &'a mut dyn FnMut(&mut Engine, usize, &Op) -> Result<(), Fail>;
 
 pub fn make_engine(case: &Case, oracles: Oracles) -> Result<Engine, Fail> {
@@ -40,6 +44,14 @@ pub fn run_ops(eng: &mut Engine, ops: &[Op], mut hook: Option<Hook>) -> (Result<
         eng.op_index = i;
         if let Err(f) = eng.step(op) {
             return (Err(f), Some(i));
+        }
+        if debug_on() {
+            let snap = eng.snapshot();
+            let extra = match crate::refparse::parse(&snap) {
+                Ok(p) => format!("len={} fat_free={:?} root(start={:#x},size={}) minifat_chain={:?} ministream_chain={:?} minifat={:?}", snap.len(), p.fat.iter().enumerate().filter(|(i, c)| **c == 0xFFFF_FFFF && *i < p.nsectors).map(|(i, _)| i).collect::<Vec<_>>(), p.entries.get(0).map(|e| e.start).unwrap_or(0), p.entries.get(0).map(|e| e.size).unwrap_or(0), p.minifat_chain, p.ministream_chain, p.minifat.iter().take(24).collect::<Vec<_>>()),
+                Err(e) => e,
+            };
+            eng.trace.push(format!("      [{}]", extra));
         }
         if let Err(f) = after_step(eng, i, op, &mut boundaries) {
             return (Err(f), Some(i));
